@@ -8,8 +8,6 @@ pub struct AnyhowError;
 fn vt_anyhow() -> AnyhowError { AnyhowError }
 pub type VtResult<T> = Result<T, AnyhowError>;
 
-pub assume_specification[ <usize as From<bool>>::from ](b: bool) -> (r: usize)
-    ensures r == (if b { 1usize } else { 0usize });
 
 pub uninterp spec fn char_boundary(s: &str, i: int) -> bool;
 pub uninterp spec fn str_bytes(s: &str) -> Seq<u8>;
